@@ -138,6 +138,7 @@ def gen_plan(rng, tier, run):
             {"kind": "ud", "id": "UD", "ver": 1, "subtype": 1 if body.startswith(b"{") else 3, "comp": 0x2000, "payload": payload.hex()}]
         plan["prefixes"] = "sample"
         plan["nflips"] = 6
+        plan["full_flips"] = False          # 64 kB x every offset would take an hour
     return plan
 
 
